@@ -69,13 +69,13 @@ GAdd    == \E n \in OpNames, rep \in BOOLEAN, enc \in Encs, big \in BigChoice : 
               /\ hist' = Append(hist, [OpRec("add", n, "", rep, comp, enc) EXCEPT !.big = big])
 GRemove == \E n \in OpNames : BeginRemove(n) /\ hist' = Append(hist, OpRec("remove", n, "", TRUE, "none", "none"))
 GRename == \E a \in OpNames, b \in OpNames : BeginRename(a, b) /\ hist' = Append(hist, OpRec("rename", a, b, TRUE, "none", "none"))
-GFlush  == (FlushClean \/ FlushRelocateV12 \/ FlushV3Broken) /\ hist' = Append(hist, OpRec("flush", "", "", TRUE, "none", "none"))
-GCompact == (CompactFresh \/ CompactRefuseUnreadable \/ CompactV3) /\ hist' = Append(hist, OpRec("compact", "", "", TRUE, "none", "none"))
+GFlush  == (FlushClean \/ FlushRelocate) /\ hist' = Append(hist, OpRec("flush", "", "", TRUE, "none", "none"))
+GCompact == (CompactNow \/ CompactRefuseNow) /\ hist' = Append(hist, OpRec("compact", "", "", TRUE, "none", "none"))
 \* reopen = drop the MutableArchive (flush on drop) and open the file again
 PredOf(img) == IF ~img.ok THEN [kind |-> "unopenable"]
                ELSE [kind |-> "map", map |-> View(img.slots, img.blocks, img.dmg), lf |-> img.lf,
                      list |-> IF img.lf /\ SlotOf(img.slots, LF) # {} THEN LFContent(img.slots, img.blocks) \cap GUNames ELSE {}]
-GClose  == (CloseClean \/ CloseRelocateV12 \/ CloseV3Broken) /\ UNCHANGED hist /\ gpreds' = Append(gpreds, PredOf(ddisk'))
+GClose  == (CloseClean \/ CloseRelocate) /\ UNCHANGED hist /\ gpreds' = Append(gpreds, PredOf(ddisk'))
 GReopen == ~wopen /\ Open /\ hist' = (IF vcalls = 0 THEN hist ELSE Append(hist, OpRec("reopen", "", "", TRUE, "none", "none")))
 
 More == Len(hist) < GMaxLen /\ ~gdone /\ pc = "idle"
@@ -100,7 +100,7 @@ Step == /\ ~gdone /\ ~Hung /\ CodeSteps
         /\ gres' = (IF pc' = "idle" THEN Append(gres, lastres') ELSE gres)
         \* the subject of the call (opr is cleared by the completing step: bind the name first)
         /\ \E nm \in GUNames : /\ nm = (IF opr.k = "rename" THEN opr.m ELSE opr.n)
-                               /\ gsr' = (IF pc' = "idle" THEN Append(gsr, SessionReadStale(nm)') ELSE gsr)
+                               /\ gsr' = (IF pc' = "idle" THEN Append(gsr, SessionReadDesigned(nm)') ELSE gsr)
         /\ UNCHANGED <<hist, gkind, gpreds, gdone>>
 \* the history is complete: the harness drops the archive (flush on drop) ...
 FinalClose == /\ ~gdone /\ pc = "idle" /\ wopen /\ gkind = "" /\ Len(hist) >= GMinLen /\ (GMode = "bfs" \/ Len(hist) >= GMaxLen)
